@@ -19,10 +19,12 @@ variation exist in it, and the theorems cover the *logic* that makes each harmle
    permutations of the elements.  `C15_sites_classified`: every iteration site the translator finds in
    typing / mirgen / bytecodegen / wasmgen / rustgen / program.rs / lower.rs (regenerated from /repo on every run,
    `Gen/HashSites.lean`) carries a reviewed kind (`C15_sites_classified_partial`); a new or changed site is
-   `unclassified` and breaks that theorem.  The property is FALSE of the pinned tree at five reviewed sites
-   (`C15_order_sensitive_sites_pinned`; findings F18a/b, F19a/b, F20 with witness programs in corpus/C15, negation on
-   the model: `C15_collect_dup_keys_order_dependent`, `C15_id_order_history_dependent`) and the MIR listing prints raw
-   ids (F17, `C15_raw_ids_history_dependent`).
+   `unclassified` and breaks that theorem.  No reviewed site is order-sensitive any more
+   (`C15_no_order_sensitive_site`): the five sites where the property was FALSE of the pinned tree (findings F18a/b,
+   F19a/b, F20; witness programs kept in corpus/C15) now go through `sorted_by_name` (kind `sort_after_collect`, ordered
+   by the TEXT of the keys) or collect into a `Vec` in source order, and the MIR listing prints argument names instead
+   of raw ids (F17).  The negations on the model stay as the reason why such code is wrong:
+   `C15_collect_dup_keys_order_dependent`, `C15_id_order_history_dependent`, `C15_raw_ids_history_dependent`.
 
 NOT proved: that each classified site really is of its kind (reviewed allow-list `tools/hash_sites.json`), that
 ids never reach output by another route, anything about wasm-encoder / the VM.  That is what the differential run
@@ -125,9 +127,9 @@ theorem C15_ids_are_positions (p : List (Op α)) (i : Nat) (s : List α) (a : Li
   rw [proj_solo] at r
   simpa using r.hs
 
-/-- the negation, for anything that shows RAW ids (finding F17: the MIR listing prints `arg <symbol id>`; F20: fresh
-type-scheme ids handed out in symbol-id order): the same one-call program observes id 0 in a fresh process and
-id 1 after a history that interned another string first. -/
+/-- the negation, for anything that shows RAW ids (what finding F17 was: the MIR listing printed `arg <symbol id>`; and
+F20: fresh type-scheme ids were handed out in symbol-id order — both repaired in /repo): the same one-call program observes
+id 0 in a fresh process and id 1 after a history that interned another string first. -/
 theorem C15_raw_ids_history_dependent :
     ((run (init ([] : List Nat) []) (solo 0 [Op.intern 7])).ths 0).hs = [0] ∧
     ((run (init [3] []) (solo 0 [Op.intern 7])).ths 0).hs = [1] := by decide
@@ -145,11 +147,10 @@ namespace Mimium.Gen
 reviewed — none is `unclassified` (a new or edited site is, until it is added to `tools/hash_sites.json`). -/
 theorem C15_sites_classified_partial : ∀ k ∈ hashSiteKinds, k ≠ HashKind.unclassified := by decide
 
-/-- exactly five reviewed sites are order-SENSITIVE (findings F18a, F18b, F19a, F19b, F20 in known_findings.jsonl,
-each with a witness program under corpus/C15); all others carry a kind proved order-insensitive below.
-A sixth order-sensitive site breaks this theorem. -/
-theorem C15_order_sensitive_sites_pinned :
-    (hashSiteKinds.filter (· = HashKind.orderSensitive)).length = 5 := by decide
+/-- **no reviewed site is order-SENSITIVE**: every hash-ordered iteration site of /repo's current source carries a kind
+proved order-insensitive below.  (Until the repairs of F18a, F18b, F19a, F19b, F20 this theorem pinned five such sites;
+their witness programs stay under corpus/C15.)  A site reviewed as order-sensitive breaks this theorem. -/
+theorem C15_no_order_sensitive_site : ∀ k ∈ hashSiteKinds, k ≠ HashKind.orderSensitive := by decide
 
 end Mimium.Gen
 
@@ -191,8 +192,8 @@ theorem C15_perm_foreach_independent {σ : Type} (body : σ → β → σ) {l₁
     l₁.foldl body init = l₂.foldl body init := perm_foreach body p comm init
 
 /-- without the distinct-keys premise `collect_map_set` is NOT order-insensitive: two declarations that insert the
-same key (finding F18: two sum types sharing a constructor name, `constructor_env.insert(name, …)` in HashMap
-order) leave the value of whichever came last -/
+same key (what finding F18 was: two sum types sharing a constructor name, `constructor_env.insert(name, …)` in HashMap
+order; repaired by visiting the declarations in the order of their names) leave the value of whichever came last -/
 theorem C15_collect_dup_keys_order_dependent :
     collectInto (fun _ => none) [(0, 10), (0, 20)] 0 ≠ collectInto (fun _ => none) [(0, 20), (0, 10)] (0 : Nat) ∧
     [(0, 10), (0, 20)].Perm [(0, 20), ((0 : Nat), (10 : Nat))] := by
